@@ -240,6 +240,11 @@ class Engine(
                     # column has the tag of a column this Select's projection
                     # hides, since operations in this Select (e.g. its sort)
                     # may still refer to the hidden one.
+                    if select.is_compound and select.has_sort and not select.has_slice:
+                        # A sort with no slice would lose its meaning inside
+                        # a subquery, so it moves to the new outer query.
+                        subquery = select.reapply_skip(sort=None)
+                        return Select.apply_skip(operation._finish_apply(subquery), sort=select.sort)
                     return Select.apply_skip(operation._finish_apply(select))
                 elif select.has_projection:
                     return select.reapply_skip(
@@ -318,6 +323,11 @@ class Engine(
                     # a SQL UNION or UNION ALL, and we trust the user's intent
                     # in putting those upstream of this operation, so we also
                     # add a nested subquery here.
+                    if select.has_sort:
+                        # A sort with no slice would lose its meaning inside
+                        # a subquery, so it moves to the new outer query.
+                        subquery = select.reapply_skip(sort=None)
+                        return Select.apply_skip(operation._finish_apply(subquery), sort=select.sort)
                     return Select.apply_skip(operation._finish_apply(select))
                 else:
                     return select.reapply_skip(after=operation)
